@@ -64,15 +64,27 @@ func newRecProducer(echoSuccess bool) *recProducer {
 	p := &recProducer{
 		input:     make(chan *sarama.ProducerMessage),
 		successes: make(chan *sarama.ProducerMessage),
-		errors:    make(chan *sarama.ProducerError),
+		errors:    make(chan *sarama.ProducerError, 4096),
 		done:      make(chan struct{}),
 	}
 	go func() {
 		defer close(p.done)
+		n := 0
 		for m := range p.input {
 			p.mu.Lock()
 			p.got = append(p.got, m)
 			p.mu.Unlock()
+			// the "broker" fails every third message AFTER it was handed over: sarama reports that on Errors(). What
+			// the library published is what it put on Input(); an error report that nobody has read yet must not make
+			// it skip or reorder later records. (Nothing reads this channel in the unchanged library when the producer
+			// is injected; the channel is buffered so that the report simply stays pending.)
+			if n%3 == 1 {
+				select {
+				case p.errors <- &sarama.ProducerError{Msg: m, Err: sarama.ErrOutOfBrokers}:
+				default:
+				}
+			}
+			n++
 			if echoSuccess {
 				p.successes <- m
 			}
